@@ -395,7 +395,7 @@ def diff_dump(a, b, path=""):
                 return d
         return None
     if a != b:
-        return "%s: impl %r vs model %r" % (path, a, b)
+        return "%s: %r vs %r" % (path, a, b)
     return None
 
 
